@@ -683,6 +683,9 @@ func bankMoves(evs []abciEvent) [][]string {
 }
 
 // emitBlock delivers the txs in one block and writes its `hist.step` line; false when the block itself failed.
+// governance shocks applied so far in the current history (harness/govshock.go); written into every step line
+var curShocks []string
+
 var debugAt int64 = -1
 var debugT *testing.T
 
@@ -705,6 +708,9 @@ func emitBlock(w *World, out *Out, hi int, txs []*histTx, dt time.Duration, stat
 	}
 	res := w.Block(dt, reqs)
 	line := J{"t": "hist.step", "id": hi, "h": res.Height, "dt": int64(dt / time.Second)}
+	if len(curShocks) > 0 {
+		line["shocks"] = append([]string{}, curShocks...)
+	}
 	if res.Err != nil {
 		line["blockErr"] = res.Err.Error()
 	}
@@ -841,6 +847,7 @@ func runHist(t *testing.T, seed int64, n int, out *Out) {
 				bpy := w.App.ParameterKeeper.GetParams(ctx).TotalBlocksPerYear
 				w.App.TokenomicsKeeper.SetTimeBasedInflation(ctx, toktypes.TimeBasedInflation{StartBlockHeight: 1, EndBlockHeight: 1_000_000_000, Description: "verif",
 					Authority: w.Gov, Inflation: &toktypes.InflationEntry{LmRewards: bpy * 1_000_000, IcsStakingRewards: bpy * 1_000_000, CommunityFund: bpy * 1000, StrategicReserve: 0, TeamTokensVested: 0}})
+				enableEdenRewards(w, ctx)
 			})
 			inflation = true
 		}
@@ -888,6 +895,8 @@ func runHist(t *testing.T, seed int64, n int, out *Out) {
 			stats["world/inflation-on"]++
 		}
 		faults := os.Getenv("VERIF_FAULTS") != ""
+		govShocks := os.Getenv("VERIF_GOVSHOCK") != ""
+		curShocks = nil
 		outage := 0 // blocks left without price feeds
 		for b := 0; b < n; b++ {
 			var txs []*histTx
@@ -931,6 +940,14 @@ func runHist(t *testing.T, seed int64, n int, out *Out) {
 				// naming every open position in every list: several positions of one pool close inside one message
 				txs = append(txs, h.batchClose()...)
 			}
+			if govShocks && h.r.Intn(6) == 0 {
+				if sh := h.govShock(); sh != "" {
+					curShocks = append(curShocks, sh)
+					stats["govShock/applied"]++
+				} else {
+					stats["govShock/refused"]++
+				}
+			}
 			dt := []time.Duration{5 * time.Second, 5 * time.Second, 6 * time.Second, time.Minute, time.Hour, 2 * time.Hour}[h.r.Intn(6)]
 			if faults && h.r.Intn(10) == 0 {
 				// long gaps between blocks: many epochs at once, every price expired
@@ -944,5 +961,14 @@ func runHist(t *testing.T, seed int64, n int, out *Out) {
 		}
 		out.Line(J{"t": "stats", "dist": stats})
 		_ = fmt.Sprint
+	}
+}
+
+// enableEdenRewards switches liquidity-mining Eden on for every pool (what governance does pool by pool with
+// MsgTogglePoolEdenRewards).
+func enableEdenRewards(w *World, ctx sdk.Context) {
+	for _, pi := range w.App.MasterchefKeeper.GetAllPoolInfos(ctx) {
+		pi.EnableEdenRewards = true
+		w.App.MasterchefKeeper.SetPoolInfo(ctx, pi)
 	}
 }
